@@ -142,6 +142,10 @@ def call_builtin(run, name, args, kwargs, node, fr):
             raise err("empty set() without declared type; add the variable to the sidecar `locals`")
         raise err("set(iterable) unsupported")
     if name == "dict":
+        if len(args) == 1 and not kwargs and isinstance(args[0], Val) and isinstance(args[0].ty, TDict):
+            return Val(args[0].ty, args[0].t)        # dict(d): a copy - containers are values here
+        if not args and not kwargs:
+            return Conc(("emptydict",))
         raise err("dict() without declared type")
     if name in ("any", "all"):
         g = args[0]
